@@ -39,32 +39,30 @@ Ltac wf_step :=
 Ltac wf_mat :=
   unfold wf_matrix, wf_frame, wf_ecu, names_ok_frame, dicts_ok_frame, dicts_ok_signal, keys; cbn; repeat wf_step.
 
-(* swap fails when a frame of one matrix shares its identifier with a differently named frame of the other:
-   a = {P(id 1, signal x), Q(id 2)}, b = {Q(id 1)}.  compare a b matches P with Q by identifier and reports x deleted;
-   compare b a matches Q with Q by name and never mentions P or x. *)
+(* the literal swap law fails for a renamed frame (same identifier, other name, neither name in the other matrix):
+   a = {P(id 1, signal x)}, b = {Z(id 1)}.  Both directions pair P with Z; x is deleted below "FRAME P" in compare a b
+   and added below "FRAME Z" in compare b a - the report names a pair of frames after the first operand's frame. *)
 Lemma swap_refuted_without_coherence :
   exists a b r1 r2, wf_matrix a /\ wf_matrix b /\ ids_unique a /\ ids_unique b /\
     compare_db ign0 a b = Some r1 /\ compare_db ign0 b a = Some r2 /\
     ~ Permutation (collect is_added r2) (collect is_deleted r1).
 Proof.
-  exists (mat [frP1; frQ2]), (mat [frQ1]).
+  exists (mat [frP1]), (mat [frZ1]).
   eexists. eexists. split; [wf_mat|]. split; [wf_mat|].
   split; [unfold ids_unique; cbn; nodup|]. split; [unfold ids_unique; cbn; nodup|].
   split; [vm_compute; reflexivity|]. split; [vm_compute; reflexivity|].
-  intro H. apply Permutation_length in H. vm_compute in H. discriminate.
+  intro H. vm_compute in H. apply Permutation_length_1 in H. discriminate.
 Qed.
 
-(* "no difference -> agree" needs unique identifiers in the second matrix: b = a + a frame Z that re-uses P's identifier *)
-Lemma reused_identifier_not_reported :
-  exists a b r, wf_matrix a /\ wf_matrix b /\ ids_unique a /\
-    compare_db ign0 a b = Some r /\ reports_nothing r /\ ~ agree ign0 a b.
-Proof.
-  exists (mat [frP1]), (mat [frP1; frZ1]). eexists.
-  split; [wf_mat|]. split; [wf_mat|]. split; [unfold ids_unique; cbn; nodup|].
-  split; [vm_compute; reflexivity|]. split; [vm_compute; reflexivity|].
-  intros [S _]. specialize (S 12). cbn in S. destruct S as [_ S].
-  assert (F : 10 = 12 \/ False) by (apply S; right; left; reflexivity). intuition discriminate.
-Qed.
+(* frames that re-use an identifier or pair crosswise are all accounted for:
+   {Q(1)} vs {P(1, signal x), Q(2)}: Q pairs with Q, P is added (and deleted the other way round);
+   {P(1)} vs {P(1), Z(1)}: Z is added *)
+Lemma crosswise_frames_reported :
+  exists r1 r2 r3,
+    compare_db ign0 (mat [frQ1]) (mat [frP1; frQ2]) = Some r1 /\ top_frames is_added r1 = [10] /\ top_frames is_deleted r1 = [] /\
+    compare_db ign0 (mat [frP1; frQ2]) (mat [frQ1]) = Some r2 /\ top_frames is_deleted r2 = [10] /\ top_frames is_added r2 = [] /\
+    compare_db ign0 (mat [frP1]) (mat [frP1; frZ1]) = Some r3 /\ top_frames is_added r3 = [12].
+Proof. do 3 eexists. repeat split; vm_compute; reflexivity. Qed.
 
 (* a non-trivial instance of the hypotheses: two well-formed, coherent matrices that differ in one offset;
    the comparison answers, reports exactly at the signal, and the swapped comparison too *)
